@@ -89,7 +89,8 @@ func (s *rpcServer) processEthSendTransaction(ctx context.Context, rpcReq *rpcba
 		var from ethtypes.Address0xHex
 		err := json.Unmarshal(txn.From, &from)
 		if err != nil {
-			return nil, err
+			err := i18n.WrapError(ctx, err, signermsgs.MsgInvalidTransaction)
+			return rpcbackend.RPCErrorResponse(err, rpcReq.ID, rpcbackend.RPCCodeParseError), err
 		}
 		rpcErr := s.backend.CallRPC(ctx, &txn.Nonce, "eth_getTransactionCount", &from, "pending")
 		if rpcErr != nil {
